@@ -22,8 +22,6 @@ def _merge(a: dict, b: dict, path=None):
         if key in a:
             if isinstance(a[key], dict) and isinstance(b[key], dict):
                 _merge(a[key], b[key], path + [str(key)])
-            elif a[key] == b[key]:
-                pass  # same leaf value
             else:
                 a[key] = b[key]
         else:
